@@ -5,6 +5,7 @@ import (
 	"os"
 	"sort"
 	"sync"
+	"sync/atomic"
 	"bufio"
 	"fmt"
 	"io"
@@ -43,6 +44,7 @@ type Solver struct {
 }
 
 var queryCache sync.Map
+var solverDeadline int64
 
 func (s *Solver) takeTime() time.Duration { t := s.Time; s.Time = 0; return t }
 
@@ -101,6 +103,9 @@ func (s *Solver) Check(roots []*Term, want []*Term) (string, map[string]string) 
 		}()
 	}
 	s.last = ""
+	if dl := atomic.LoadInt64(&solverDeadline); dl != 0 && time.Now().Unix() > dl {
+		return "unknown", nil // past the run's time budget: the run is inconclusive anyway
+	}
 	t0 := time.Now()
 	defer func() { s.Time += time.Since(t0); s.Queries++ }()
 	all := append(append([]*Term{}, roots...), want...)
